@@ -42,6 +42,31 @@ pub fn enc_len(x: &mut Xo, index: u64, allow_huge: bool) -> usize {
     }
 }
 
+/// Large payloads whose FRAMED size (varint length prefix + message) sits on, just below or just above a power of
+/// two from 64 KiB to 4 MiB or a 1024..16384-fold multiple of a XOF rate (168 / 136 bytes): where chunked key
+/// streams, multi-byte length prefixes (3 -> 4 bytes at 2 MiB) and buffer doubling change behaviour.
+pub fn big_lens() -> &'static [usize] {
+    static L: std::sync::OnceLock<Vec<usize>> = std::sync::OnceLock::new();
+    L.get_or_init(|| {
+        let mut bases: Vec<usize> = (16..=22).map(|j| 1usize << j).collect();
+        for j in 7..=14 {
+            bases.push(168 << j);
+            bases.push(136 << j);
+        }
+        let mut v = vec![];
+        for b in bases {
+            for pre in [0usize, 3, 4] {
+                for d in [0isize, -1, 1] {
+                    v.push((b as isize - pre as isize + d) as usize);
+                }
+            }
+        }
+        v.sort();
+        v.dedup();
+        v
+    })
+}
+
 impl Scenario for CryptSc {
     fn name(&self) -> &'static str {
         "crypt"
@@ -64,7 +89,15 @@ impl Scenario for CryptSc {
         p.set("n", n);
         p.set("t", x.range(2, n as u64) as i64);
         p.steps.push(Step::new(class, &[index as i64]));
-        match class {
+        let big = class.ends_with("-big");
+        if big {
+            // every large framed-size boundary; group, scheme and the threshold flag rotate
+            let l = big_lens();
+            p.set("len", l[(index % l.len() as u64) as usize] as i64);
+            p.set("g", ((index / l.len() as u64 + index) % 2) as i64);
+            p.set("scheme", ((index / 2) % 3) as i64);
+        }
+        match class.trim_end_matches("-big") {
             "sc-roundtrip" => {
                 if x.chance(1, 2) {
                     let at = x.range(1, 30) as i64;
@@ -145,7 +178,7 @@ impl Scenario for CryptSc {
     }
     fn run(&self, plan: &Plan, env: &Env, rec: &mut Rec) {
         let lib = env.cur;
-        match plan.class.as_str() {
+        match plan.class.trim_end_matches("-big") {
             "sc-roundtrip" => sc_roundtrip(plan, lib, rec),
             "sc-tamper" => sc_tamper(plan, lib, rec, false),
             "sc-bitflip-all" => sc_tamper(plan, lib, rec, true),
@@ -944,4 +977,12 @@ fn eg_proof_tamper(plan: &Plan, lib: &dyn Lib, rec: &mut Rec) {
     }
     rec.sample(|| format!("perturbation={} g={} key_class={}", label, g.name(), plan.get("key_class")));
     c.finish(rec);
+}
+
+#[cfg(test)]
+mod tests {
+    #[test]
+    fn big_count() {
+        assert_eq!(super::big_lens().len(), 161);
+    }
 }
